@@ -291,7 +291,11 @@ func (fc *FnCtx) execUnOp(st *State, x *ssa.UnOp) {
 				c := fc.q.freshConst("ld_"+x.Name(), ti.sortOf(et))
 				fc.q.assert(implies(st.reach, eq(c, v.T)))
 				if needsInv(ti.sortOf(et), et) {
-					fc.typeInv(st, c, et)
+					arr := addr.Arr
+					if arr == "" {
+						arr = ti.cellArray(et)
+					}
+					fc.typeInvB(st, c, et, st.boundOf(arr))
 				}
 				v.T = c
 			}
@@ -746,6 +750,13 @@ func (fc *FnCtx) execConvert(st *State, x *ssa.Convert) {
 		fc.vals[x] = v
 	case fs == sRef && ts == sRef:
 		fc.vals[x] = v
+	case fs == sStr && ts == sSlice:
+		// []byte(s): injective uninterpreted function
+		r := app("bytesOf", v.T)
+		fc.q.assert(eq(app("strOfBytes", r), v.T))
+		fc.vals[x] = Val{T: r}
+	case fs == sSlice && ts == sStr:
+		fc.vals[x] = Val{T: app("strOfBytes", v.T)}
 	default:
 		fc.abstract(fmt.Sprintf("convert %s -> %s", from, to))
 		fc.vals[x] = fc.freshVal(st, to, "conv")
